@@ -6,6 +6,7 @@ Properties/C05.lean — `pcDelta` is the exact histogram of all pairwise distanc
 (`pdistVec_eq_pairs`, `pairsOf_length` in Proofs/Hist2.lean).  Only property theorems and
 non-vacuity examples live here; helper lemmas are in Proofs/Hist2.lean.
 -/
+import Prs.Generated.PcDeltaBackground
 import Prs.Proofs.Hist2
 
 namespace Prs
@@ -189,3 +190,14 @@ example : IsDownsample [1, 2] (some 2) [1, 2] := by simp [IsDownsample]
 
 end Prs
 
+
+namespace Prs
+/-- `load_pcDelta_background`: the bundled table's index (regenerated from the CSV on every run) is
+0..n−1, so the returned bin edges are the consecutive integers 0..n — one more than the table has
+rows — and pcDelta output (one value per bin) aligns row by row with the table -/
+theorem C05_background_bins :
+    Generated.backgroundIndexAllNat = true ∧
+    Generated.backgroundIndex = List.range Generated.backgroundIndex.length ∧
+    backgroundBins Generated.backgroundIndex = List.range (Generated.backgroundIndex.length + 1) :=
+  Generated.background_ok
+end Prs
